@@ -151,6 +151,10 @@ std::ostream& operator<<(std::ostream& os, const TrackDataKey& k)
   return os;
 }
 
+// No real track comes anywhere near this size; it bounds the buffer we
+// are prepared to allocate on the say-so of the image file.
+constexpr unsigned long max_track_bytes = 1uL << 20;
+
 struct TrackData		// an in-memory, not on-disk, representation
 {
   TrackData(unsigned long size, unsigned offset)
@@ -379,9 +383,13 @@ std::map<TrackDataKey, TrackData> HxcMfmFile::get_track_metadata()
        pos += 11)
     {
       std::vector<byte> raw_metadata = file_->read(pos, 11);
+      if (raw_metadata.size() < 11)
+	throw InvalidHxcMfmFile("the track list is truncated");
       const byte* raw = raw_metadata.data();
       const TrackDataKey key(le_word(raw), raw[2]);
       const TrackData td(le_quad(raw+3), le_quad(raw+7));
+      if (td.mfmtracksize > max_track_bytes)
+	throw InvalidHxcMfmFile("a track list entry declares an implausibly long track");
       if (DFS::verbose)
 	{
 	  std::cerr << "HxcMfmFile::get_track_metadata: data for "
